@@ -8,6 +8,9 @@ import (
 type ParserData struct {
 	code      []ByteCode
 	codeIndex int
+	// set when an instruction had to be dropped because the code size limit
+	// was reached; the program must then be rejected, not run truncated
+	codeOverflow bool
 
 	Config        RollConfig
 	flagsStack    []RollConfig
@@ -65,6 +68,7 @@ func (e *ParserData) checkStackOverflow() bool {
 			e.code = newCode
 		} else {
 			// e.Error = errors.New("E1:指令虚拟机栈溢出，请不要发送过长的指令")
+			e.codeOverflow = true
 			return true
 		}
 	}
